@@ -205,6 +205,16 @@ const ansi = "[\u001B\u009B][[\\]()#;?]*(?:(?:(?:[a-zA-Z\\d]*(?:;[a-zA-Z\\d]*)*)
 
 var re = regexp.MustCompile(ansi)
 
+// FirstSequence returns the length of the ANSI escape
+// sequence a string starts with, or 0 if it starts with none.
+func FirstSequence(str string) int {
+	if loc := re.FindStringIndex(str); loc != nil && loc[0] == 0 {
+		return loc[1]
+	}
+
+	return 0
+}
+
 // Strip removes all ANSI escaped color sequences in a string.
 func Strip(str string) string {
 	return re.ReplaceAllString(str, "")
